@@ -68,6 +68,7 @@ def run(program, res, tier):
                 res.fail_at("C02-S1", nj, f"join-keyword:{jt}", f"join type {jt} is emitted as `{kw}`, which is not PostgreSQL join syntax")
     r2 = Relabel(res, {"*": "C02-S2"})
     c04._s1a(program, r2)
+    c04.clause_pushdown_rule(program, r2)
     c04._s1b(program, r2)
     c04._s1d(program, r2)
     c04._s1c(program, r2)
